@@ -25,9 +25,12 @@ def run(prog: Program, rep: Report, tier: str):
                     "returns distinct indices", "constructor asserts (every class / both pools non-empty)"]
     rep.not_decided += ["exact per-class counts and 'as evenly as possible' as values", "epoch length modes across world sizes",
                         "validity of the emitted indices as values"]
+    epoch_state_fresh(prog, rep)
     semi(prog, rep)
     weighted(prog, rep)
     balanced(prog, rep)
+    from .c03 import readers_pure
+    readers_pure(prog, rep)  # the samplers read the labels through getall*: a memo on the dataset leaks through the wrappers
     # the epoch composition is a statement about all ranks together: the rank split / equal length clauses of C12 apply
     from .c12 import rank_split_rules
     for cname in ("ClassBalancedSampler", "WeightedSampler"):
@@ -45,6 +48,69 @@ def run(prog: Program, rep: Report, tier: str):
                    f"SemiSampler.__len__ returns {show(rets[0]) if rets else '?'}: per-rank streams are not equally long / do "
                    f"not follow the documented length mode", clause="C13.5")
     names.check(prog, rep, FILES, clause="C13.G1", floor=12)
+
+
+def epoch_state_fresh(prog: Program, rep: Report):
+    """Iterators that outlive one epoch: created in the constructor (or anywhere but __iter__), consumed by __iter__."""
+    rep.rule("G8.epoch-state-fresh", "__iter__ of a composition sampler builds the streams it consumes: no attribute of the sampler "
+             "holds an iterator - the result of calling a generator method / function, iter(...), an itertools object, a "
+             "generator expression, or a list / dict of those - that is created outside __iter__ and advanced (next / islice / "
+             "for / yield from) inside it.  Such a stream continues in the next epoch where the previous one stopped: the "
+             "leftover of one epoch's last permutation is emitted before a fresh one, so an epoch no longer uses every sample of "
+             "a pool as evenly as possible (and the epoch is no function of (seed, epoch))")
+    n = 0
+    for cname in ("SemiSampler", "ClassBalancedSampler", "WeightedSampler"):
+        C = prog.raw.cls(cname)
+        it = C.methods.get("__iter__")
+        if it is None:
+            continue
+        n += 1
+        gens = {f.name for f in C.methods.values() if any(isinstance(y, (ast.Yield, ast.YieldFrom)) for y in ast.walk(f.node))}
+
+        def is_iterator_expr(e) -> bool:
+            if isinstance(e, ast.GeneratorExp):
+                return True
+            if isinstance(e, ast.Call):
+                f = e.func
+                nm = f.attr if isinstance(f, ast.Attribute) else getattr(f, "id", "")
+                if nm in gens and nm != "__iter__" and isinstance(f, ast.Attribute) and _nm(f.value) == "self":
+                    return True
+                if nm in ("iter", "cycle", "chain", "islice", "repeat", "count", "zip", "map", "filter", "enumerate", "reversed"):
+                    return True
+            if isinstance(e, (ast.List, ast.Tuple)):
+                return any(is_iterator_expr(x) for x in e.elts)
+            if isinstance(e, (ast.ListComp, ast.SetComp)):
+                return is_iterator_expr(e.elt)
+            if isinstance(e, ast.DictComp):
+                return is_iterator_expr(e.value)
+            if isinstance(e, ast.Dict):
+                return any(is_iterator_expr(v) for v in e.values)
+            return False
+        held = {}
+        for f in C.methods.values():
+            if f.name == "__iter__" or f.name in gens:
+                continue
+            for st in ast.walk(f.node):
+                if isinstance(st, ast.Assign) and is_iterator_expr(st.value):
+                    for t in st.targets:
+                        if isinstance(t, ast.Attribute) and _nm(t.value) == "self":
+                            held[t.attr] = (f.name, st.lineno)
+        used = sorted({y.attr for y in ast.walk(it.node) if isinstance(y, ast.Attribute) and _nm(y.value) == "self" and y.attr in held})
+        # also through helpers called on self from __iter__
+        for y in ast.walk(it.node):
+            if isinstance(y, ast.Call) and isinstance(y.func, ast.Attribute) and _nm(y.func.value) == "self" and y.func.attr in C.methods:
+                h = C.methods[y.func.attr]
+                used = sorted(set(used) | {z.attr for z in ast.walk(h.node) if isinstance(z, ast.Attribute) and _nm(z.value) == "self"
+                                            and z.attr in held})
+        rep.decide(not used, "G8.epoch-state-fresh", it, "no-iterator-attribute", "every stream consumed by __iter__ is created in it",
+                   "; ".join(f"self.{a} holds an iterator created in {held[a][0]} (line {held[a][1]}) and is consumed by __iter__"
+                             for a in used) + ": the next epoch continues where this one stopped", line=it.node.lineno,
+                   clause="C13.3")
+    rep.floor("composition samplers checked for per-epoch streams", n, 3)
+
+
+def _nm(e):
+    return e.id if isinstance(e, ast.Name) else None
 
 
 def semi(prog: Program, rep: Report):
